@@ -13,7 +13,7 @@ TECH = ("Coq theorems about a Gallina model; the model is tied to /repo on every
         "(model evaluated with vm_compute on the cases the implementation ran) and, for the translated functions, by "
         "Gallina definitions regenerated from the Python source text and proved equal to the model (tie C)")
 T = {
- "C01": ("`C01_set_algebra`: for every expression tree in the decidable domain `good` (any stored events — overlapping, nested, adjacent, duplicated, unbounded — under | & - ~ flatten and leaf filters; operands of & and sources of - internally non-overlapping) and every window, covers(slice) = window AND pointwise Boolean denotation; per-sweep theorems for union (any streams), complement (any sorted stream), difference (arbitrary subtractors), k-way intersection, window clipping. Model tied to /repo by running both on generated expression trees (aliased leaves included); the Coq oracle `cover_ok` is applied to the implementation's output on all breakpoints; Complement._sweep / Complement.fetch / _SolidTimeline.fetch / finite_start / finite_end are re-translated from the source text on every run and proved equal to the model (`C01_source_*`).",
+ "C01": ("`C01_set_algebra`: for every expression tree in the decidable domain `good` (any stored events — overlapping, nested, adjacent, duplicated, unbounded — under | & - ~ flatten and leaf filters; operands of & and sources of - internally non-overlapping) and every window, covers(slice) = window AND pointwise Boolean denotation; per-sweep theorems for union (any streams), complement (any sorted stream), difference (arbitrary subtractors), k-way intersection, window clipping. Model tied to /repo by running both on generated expression trees (aliased leaves included); the Coq oracle `cover_ok` is applied to the implementation's output on all breakpoints; Complement._sweep / Complement.fetch / Difference._sweep / MemoryTimeline._fetch_static / _SolidTimeline.fetch / finite_start / finite_end are re-translated from the source text on every run and proved equal to the model (`C01_source_*`, e.g. `C01_source_difference_cover`).",
          "5/C01", "Coq kernel; hand-written model + correspondence; difference over a source stream with overlapping events is known finding KF-D1 (the theorem's domain excludes it, `C01_difference_overlap_refuted` keeps the witness); coverage of intersections over internally overlapping operands rests on correspondence + oracle"),
  "C02": ("`C02_events_exact`: on `good` trees the slice is, as a multiset, the clip of the window-independent reference evaluation `ref` (each source event once per surviving part, payload intact); sweep-level exactness for union, filter, difference (list equality with `minus_runs`), k-way intersection (permutation of `inter_ref`), never-invents theorems without any domain restriction. Oracle on the implementation: multiset equality with `expected` on the exact domain, per-event survival (`events_weak_ok`) everywhere.",
          "5/C02", "as C01; KF-D1 and KF-D2 (intersection keeps one current event per operand) are known findings with refuted-theorem witnesses"),
@@ -25,10 +25,10 @@ T = {
          "5/C05", "as C02; recurring sources are covered by C08 (`fetch_window_independent`)"),
  "C06": ("`csweep_spec`: the complement sweep returns plain, window-confined, sentinel-free, strictly separated gaps covering exactly the uncovered instants, for EVERY sorted positive-length input; `canonical_unique`, `flatten_idempotent`, `compl_triple` (Proofs/Canon.v); `C06_source_complement_canonical_and_exact`: the same theorem about the Gallina translation of Complement._sweep's SOURCE TEXT regenerated on every run (tie C); correspondence + Coq oracle `canonical` on nestings of ~, flatten, & over masks incl. non-canonical unions of masks under them.",
          "5/C06", "Coq kernel + model + correspondence; no known finding"),
- "C07": ("`C07_forward_exact`: whenever the forward fetch of the model returns, it returns EXACTLY the occurrences of the bi-infinite phase-aligned series (`Spec/RecurSpec.v`: one occurrence per matching local date) that end after the window start and start at or before its end, minus exdates, ascending — every frequency, interval, BYDAY (plain or n-th), BYMONTHDAY, BYMONTH, BYSETPOS, anchored or time-of-day, any duration and window, any zone whose offsets differ by at most half a day; `C07_forward_total` (no exception, fuel suffices); strictly increasing starts; calendar lemmas (one full 400-year era enumerated in the kernel + periodicity), anchor phase/template/look-back theorems. The rrule model is checked against dateutil/zoneinfo and the whole model against RecurringPattern on every run; the oracle on the implementation is the independent per-local-date series.",
+ "C07": ("`C07_forward_exact`: whenever the forward fetch of the model returns, it returns EXACTLY the occurrences of the bi-infinite phase-aligned series (`Spec/RecurSpec.v`: one occurrence per matching local date) that end after the window start and start at or before its end, minus exdates, ascending — every frequency, interval, BYDAY (plain or n-th), BYMONTHDAY, BYMONTH, BYSETPOS, anchored or time-of-day, any duration and window, any zone whose offsets differ by at most half a day; `C07_forward_total` (no exception, fuel suffices); strictly increasing starts; calendar lemmas (one full 400-year era enumerated in the kernel + periodicity), anchor phase/template/look-back theorems. `C07_source_forward_exact`: the same about the Gallina translation of _fetch_forward's SOURCE TEXT (tie C). The rrule model is checked against dateutil/zoneinfo and the whole model against RecurringPattern on every run; the oracle on the implementation is the independent per-local-date series.",
          "5/C07", "dateutil.rrule and zoneinfo are external: modelled and validated differentially on every run, not verified; KF-MIXED-BYDAY (dateutil reads mixed plain/n-th BYDAY as a conjunction)"),
- "C08": ("`C08_fetch_window_independent` (the answer to a window is the restriction of the answer to any wider window — a corollary of `C07_forward_exact`), `C08_forward_no_raise`, `C08_safe_anchor_total`, `C08_forward_fuel_enough`, reverse = reversed forward (`pager_exactly_once`), phase kept arbitrarily far from the anchor (`anchor_phase`), look-back sufficient for durations longer than the period; model tied to RecurringPattern on every run.",
-         "5/C08", "as C07"),
+ "C08": ("`C08_fetch_window_independent` (the answer to a window is the restriction of the answer to any wider window — a corollary of `C07_forward_exact`), `C08_forward_no_raise`, `C08_safe_anchor_total`, `C08_forward_fuel_enough`, `C08_reverse_exact` (reverse iteration = the spec's occurrences newest first, each once), `C08_safe_anchor_total_all` (days 29-31 and 29 February included), `C08_source_reverse_is_model` / `C08_source_safe_anchor_is_model` (tie C), reverse = reversed forward (`pager_exactly_once`), phase kept arbitrarily far from the anchor (`anchor_phase`), look-back sufficient for durations longer than the period; model tied to RecurringPattern on every run.",
+         "5/C08", "as C07; KF-ANCHOR-YEAR1-C08: a 29-February anchor asked about a window before the anchor within a few years of year 1 raises"),
  "C09": ("`C09_mask_observational` (mask sources: for EVERY history incl. source mutations and ANY source events the covered time inside the window is identical, fragments positive, ordered) and `C09_observational`: for EVERY history of bounded queries and clock advances (any ttl>0, any clock granularity incl. equal consecutive readings) over any keyed source with unique keys, the next query returns exactly the source's clipped slice, each event whole and once, in order; `sink_inv_reachable` (the stitched/fractured sink is determined by the live segments). Model tied to cache.py by histories run with a fake clock; trace oracle on the implementation.",
          "5/C09", "Coq kernel + model + correspondence; integer fake clock (float rounding of created+ttl not modelled); order among equal-span fragments compared as multisets (Python set iteration order)"),
  "C10": ("`C10_staleness_versions` / `C10_change_visible` (for EVERY history with source mutations: an event still showing the fields from before a mutation is only ever served while that mutation is less than ttl old, across stitches and partial expiry — Proofs/CacheStale.v), `heap_inv_reachable`, `fresh_covers_only` (a segment survives eviction iff fetched less than ttl ago), `economy` (source fetches = exactly the maximal parts of the window not covered by fresh segments), `no_refetch_while_fresh`, for every reachable state incl. source mutations; trace oracle on the implementation's fetch log with clock readings and version numbers.",
@@ -51,7 +51,7 @@ T = {
          "5/C18", "Duration.apply divides in floating point: the model compares exact rationals (equivalent below 2^53 s); ill-typed comparisons are outside the generator"),
  "C19": ("abstract VEVENT model (`to_vevent`/`of_vevent`, `rrule_text`/`parse_rrule`) with round-trip theorems; tied to ical.py by really writing and loading .ics files and by expanding the emitted RRULE with dateutil.rrulestr on every run.",
          "5/C19", "the text layer (icalendar) and the reference parser (dateutil.rrulestr) are external; recorded known findings for residues (pre-DTSTART occurrences of loaded series, fixed-offset zones, non-UTC all-day)"),
- "C20": ("model of the adapter's conversions, reverse pager and write path over a simulated backend state machine with failure schedules; `guard_discipline facts = true` re-proved against Gen/GuardFacts.v regenerated from gcsa.py; pager exactly-once, span exactness, add-then-read and fault containment theorems; histories incl. failures at every backend call index.",
+ "C20": ("model of the adapter's conversions, reverse pager and write path over a simulated backend state machine with failure schedules; `guard_discipline facts = true` re-proved against Gen/GuardFacts.v regenerated from gcsa.py; pager exactly-once, span exactness, add-then-read, fault containment and `C20_remove_instance_exact` (removing an instance excludes exactly that occurrence, also of series with UNTIL / COUNT written by another client) theorems; histories incl. aimed removals and failures at every backend call index.",
          "5/C20", "the Google API and the gcsa object layer are replaced by a simulation (trusted); zoneinfo external"),
 }
 
